@@ -66,6 +66,7 @@ func (u unit) pre() (string, string) {
 type startT struct {
 	LitPlus bool   `json:"litplus"`
 	State   string `json:"state"`
+	Utf8    bool   `json:"utf8"` // the client enables UTF8=ACCEPT first (only on an authenticated connection)
 }
 
 type caseT struct {
@@ -114,6 +115,8 @@ func prePost(cmd string) (string, string) {
 		return `LIST "" `, ""
 	case "SEARCH-str":
 		return "SEARCH SUBJECT ", ""
+	case "FETCH-hdr":
+		return "FETCH 1 BODY.PEEK[HEADER.FIELDS (", ")]"
 	case "APPEND":
 		return "APPEND m ", ""
 	case "NOOP-lit":
@@ -170,7 +173,7 @@ type peer struct {
 
 func dial(st startT) (*peer, error) {
 	s := getServer(st)
-	p := &peer{srv: s, stub: &vh.ScriptSession{}}
+	p := &peer{srv: s, stub: &vh.ScriptSession{EchoFetch: true}}
 	c, sc, err := s.ln.Dial2(func(server *vh.Conn) { s.reg.Put(server, p.stub) })
 	if err != nil {
 		return nil, err
@@ -180,6 +183,11 @@ func dial(st startT) (*peer, error) {
 		return nil, fmt.Errorf("greeting: %v", err)
 	}
 	if st.State == "auth" {
+		if st.Utf8 {
+			if _, t, err := p.raw.Cmd("ENABLE UTF8=ACCEPT"); err != nil || t.Name != "OK" {
+				return nil, fmt.Errorf("ENABLE failed: %v", err)
+			}
+		}
 		if _, t, err := p.raw.Cmd("SELECT m"); err != nil || t.Name != "OK" {
 			return nil, fmt.Errorf("initial SELECT failed: %v", err)
 		}
@@ -361,6 +369,12 @@ func argStrings(c vh.CallRec) []string {
 						out = append(out, h.Value)
 					}
 				}
+			case *imap.FetchOptions:
+				if v != nil {
+					for _, sec := range v.BodySection {
+						out = append(out, sec.HeaderFields...)
+					}
+				}
 			}
 		}
 	}
@@ -411,7 +425,7 @@ func runCase(cs *caseT, enc *json.Encoder, emu *sync.Mutex, out *vh.Out, rng *ra
 	defer p.close()
 	p.rng = rng
 	var recs []interface{}
-	recs = append(recs, map[string]interface{}{"ev": "Reset", "litplus": cs.Start.LitPlus, "state": cs.Start.State})
+	recs = append(recs, map[string]interface{}{"ev": "Reset", "litplus": cs.Start.LitPlus, "state": cs.Start.State, "utf8": cs.Start.Utf8})
 	alive := true
 	for i, u := range cs.Units {
 		if !alive {
@@ -456,7 +470,7 @@ func runCase(cs *caseT, enc *json.Encoder, emu *sync.Mutex, out *vh.Out, rng *ra
 			units--
 			break
 		}
-		recs = append(recs, map[string]interface{}{"ev": "Unit", "u": u, "obs": res.Obs, "closed": res.Closed, "stall": res.Stall})
+		recs = append(recs, map[string]interface{}{"ev": "Unit", "u": u, "obs": res.Obs, "closed": res.Closed, "stall": res.Stall, "bad": res.Bad})
 		if res.Closed || res.Stall || (u.Size == "huge" && u.Form == "nonsync" && res.Obs.Tagged == "NONE") {
 			alive = false
 		}
@@ -478,7 +492,7 @@ func runCase(cs *caseT, enc *json.Encoder, emu *sync.Mutex, out *vh.Out, rng *ra
 		if res.Closed && res.Obs.Tagged == "NONE" && len(recs) > 1 && res.Smuggle == "" {
 			recs[len(recs)-1].(map[string]interface{})["closed"] = true
 		} else {
-			recs = append(recs, map[string]interface{}{"ev": "Unit", "u": unit{"NOOP", "none", "small", "benign", "short"}, "obs": res.Obs, "closed": res.Closed, "stall": res.Stall})
+			recs = append(recs, map[string]interface{}{"ev": "Unit", "u": unit{"NOOP", "none", "small", "benign", "short"}, "obs": res.Obs, "closed": res.Closed, "stall": res.Stall, "bad": res.Bad})
 		}
 		if res.Smuggle != "" && p.origin != nil {
 			out.Mismatch(sigOf("smuggle", *p.origin), res.Smuggle, cs)
@@ -603,10 +617,11 @@ func main() {
 		enc := json.NewEncoder(f)
 		var emu sync.Mutex
 		rng := rand.New(rand.NewSource(*seed))
-		cmds := []string{"LOGIN-user", "LOGIN-pass", "CREATE", "RENAME-new", "LIST-pat", "SEARCH-str", "APPEND", "NOOP-lit", "XUNK-lit", "NOOP", "AUTH-CANCEL", "IDLE"}
+		cmds := []string{"LOGIN-user", "LOGIN-pass", "CREATE", "RENAME-new", "LIST-pat", "SEARCH-str", "FETCH-hdr", "APPEND", "NOOP-lit", "XUNK-lit", "NOOP", "AUTH-CANCEL", "IDLE"}
 		nUnits := 0
 		for t := 0; t < *traces; t++ {
-			cs := &caseT{Start: startT{rng.Intn(2) == 0, []string{"notauth", "auth"}[rng.Intn(2)]}}
+			cs := &caseT{Start: startT{LitPlus: rng.Intn(2) == 0, State: []string{"notauth", "auth"}[rng.Intn(2)]}}
+			cs.Start.Utf8 = cs.Start.State == "auth" && rng.Intn(2) == 0
 			for i := 0; i < *steps; i++ {
 				u := unit{Cmd: cmds[rng.Intn(len(cmds))]}
 				switch u.Cmd {
